@@ -1,6 +1,6 @@
 import Harper.Basic.Proto
 import Harper.Model.Suggestion
-namespace Harper.Driver
+namespace Harper.Driver.Suggestion
 open Harper Harper.Proto
 
 def showResult (r : Except Panic (List Nat)) : String :=
@@ -83,4 +83,4 @@ def handleSubstAll (args : List String) : String :=
     | _, _ => "bad-op"
   | _ => "bad-op"
 
-end Harper.Driver
+end Harper.Driver.Suggestion
